@@ -5,13 +5,23 @@
 (* InPlace = TRUE is the necessity run (writing the target directly must violate it), and            *)
 (* RenameBeforeClose checks that the order of close and rename does not matter for process crashes   *)
 (* only if everything was written before.                                                            *)
+(* A crash (the process dies: descriptors are gone, the files stay as they are) may be followed by a restart, which runs the program's   *)
+(* start-up path and then possibly another save.  The start-up path of the tree only reads the target; PromoteSide = TRUE is the         *)
+(* tempting "recovery" that moves a left-over side file over the target (necessity run: the side file of an interrupted save is a        *)
+(* truncated prefix).                                                                                                                     *)
 EXTENDS AtomicFile
-CONSTANTS Side, InPlace, RenameEarly
+CONSTANTS Side, InPlace, RenameEarly, PromoteSide
 VARIABLES pc, left
 mv == << fs, fd, pc, left >>
 Init == AFInit /\ pc = "start" /\ left = NewSize
 Path == IF InPlace THEN Target ELSE Side
+Crash == /\ pc \in {"start", "writing", "writing_renamed", "closed"} /\ pc' = "crashed"
+         /\ fd' = [x \in {} |-> 0] /\ UNCHANGED << fs, left >>
+Restart == /\ pc = "crashed" /\ pc' = "restarted" /\ UNCHANGED << fd, left >>
+           /\ IF PromoteSide /\ Side \in DOMAIN fs /\ ~InPlace THEN Rename(Side, Target) /\ UNCHANGED fd ELSE UNCHANGED fs
+SaveAgain == /\ pc = "restarted" /\ Complete(Target) /\ pc' = "start" /\ left' = NewSize /\ UNCHANGED << fs, fd >>
 Next ==
+  \/ Crash \/ Restart \/ SaveAgain
   \/ pc = "start" /\ Open(3, Path, TRUE) /\ pc' = "writing" /\ UNCHANGED left
   \/ pc = "writing" /\ left > 0 /\ (\E k \in 1..left : Write(3, k) /\ left' = left - k) /\ UNCHANGED pc
   \/ pc = "writing" /\ RenameEarly /\ ~InPlace /\ Rename(Side, Target) /\ pc' = "writing_renamed" /\ UNCHANGED left
